@@ -133,10 +133,12 @@ TraceSetup ==
   /\ Start([P |-> [B |-> Ev.P.B, Bb |-> Ev.P.Bb, G |-> Ev.P.G, H |-> Ev.P.H],
             V |-> [B |-> Ev.V.B, Bb |-> Ev.V.Bb, G |-> Ev.V.G, H |-> Ev.V.H]])
 
+\* the application's appends: everything appended before the library's own separator (the last append of the event)
+AppendsOf(tx) == SelectSeq(tx, LAMBDA r : r.o = "A")
 TraceNew ==
   /\ IsEvent("new") /\ ~degen
-  /\ Len(Ev.tx) >= 1
-  /\ New(Ev.role, [k \in 1 .. Len(Ev.tx) - 1 |-> AppOp(Ev.tx[k])])
+  /\ Len(AppendsOf(Ev.tx)) >= 1
+  /\ New(Ev.role, [k \in 1 .. Len(AppendsOf(Ev.tx)) - 1 |-> AppOp(AppendsOf(Ev.tx)[k])])
   /\ OpsMatch(Ev.tx, tr'[Ev.role])
 
 \* C15: the constant the harness attached to constrain(expr + c) is minus the meaning of the expression (plus the
